@@ -64,6 +64,16 @@ func genC13(dir, tier string, seed int64) {
 				delete(c.feed, nm)
 			}
 		}
+		if r.Intn(3) == 0 {
+			// initializers that are NOT inputs, as many as there are declared inputs (or one more / fewer): the
+			// signature is enforced whatever the counts happen to be
+			nInit := nIn + r.Intn(3) - 1
+			for q := len(c.inits); q < nInit; q++ {
+				nm := fmt.Sprintf("const%d", q)
+				c.inits = append(c.inits, nm)
+				c.initVals[nm] = stens{[]int{1}, int64(3000 + q)}
+			}
+		}
 		c.nodes = []snode{{op: 1, attr: 3, nout: 1, in: append([]string{}, names...), out: []string{"y"}}}
 		c.outputs = []string{"y"}
 		// one case in three: a further declared input that NO node reads (a mask, a flag left in the
